@@ -4,7 +4,7 @@ seeded changes from a matrix file (bin/seedmatrix output: `<seed> <check> rc=<n>
 import json, os, sys, collections
 
 V = os.path.dirname(os.path.dirname(os.path.abspath(__file__)))
-matrix = sys.argv[1] if len(sys.argv) > 1 else os.path.join(V, "out", "seedmatrix-full.txt")
+matrices = sys.argv[1:] or [os.path.join(V, "out", "seedmatrix-A.txt"), os.path.join(V, "out", "seedmatrix-B.txt")]
 
 B2 = {
  "C03-1": ("C03", "proxy configured with --unsupported-write-consistencies, a non-SELECT with such a consistency AND a custom payload in the frame", "the re-encoded frame reaches the backend without the client's custom payload"),
@@ -50,11 +50,28 @@ B3 = {
  "C17-4": ("C17", "PREPARE of a USE statement as the first intercepted statement a connection prepares", "assignment to entry in nil map: process dies"),
  "C18-3": ("C18", "schema event while a session is being created (listener registered after start-up)", "listeners slice read and appended without ordering"),
  "C18-4": ("C18", ">= 2 pooled connections reconnecting at once", "shared reconnect policy counter written by all stayConnected goroutines"),
+ "C03-3": ("C03", "lz4 client, a body with a record of >= 8 bytes repeated back to back, and a path that sends the DECODED form on (override, lz4 batch)", "overlapping LZ4 matches with period >= 8 decode as first period + zeros: backend receives zeros"),
+ "C06-3": ("C06", ">= 1024 multi-column (tuple) relations in one statement or batch", "nesting-depth counter leaks on the tuple-relation path: plain statement reported not idempotent"),
+ "C06-4": ("C06", "a tuple literal whose first element is a qualified system.now()/system.uuid() call", "reported idempotent (identifier clobbered by a look-ahead)"),
+ "C09-3": ("C09", "USE system, then an unqualified system table followed by LIMIT / ALLOW FILTERING / ORDER BY ...", "table name overwritten by the following word: statement forwarded, backend's real system tables reach the client"),
+ "C09-4": ("C09", "PREPARE of a system-table SELECT whose select clause the proxy cannot evaluate (JSON, DISTINCT, writetime, CAST, token)", "forwarded to the backend instead of being answered (with an error) by the proxy"),
+ "C10-3": ("C10", ">= 2 proxies in the peer list, no explicit tokens, self not the lowest address", "self keeps the placeholder minimum token: two nodes with the same token, views differ"),
+ "C11-3": ("C11", "a QUERY/BATCH body truncated inside the last bytes of a [long string]", "length checked against the whole body: slice bounds panic / read past the frame"),
+ "C11-4": ("C11", "a BATCH (v4+) with an UNSET bound value in a child", "valid batch rejected (invalid [value] length: -2)"),
+ "C12-3": ("C12", "lz4 client, overridden write whose body contains a run / short-period repetition", "overlapping LZ4 matches decoded with memmove: the re-encoded request carries NUL bytes"),
+ "C13-3": ("C13", "a DSE maximum version configured and a version-2 frame", "v2 frames accepted and forwarded"),
+ "C13-4": ("C13", "a forwarded request, then STARTUP with compression, then a compressed request on the same connection", "per-connection session shortcut ignores compression: compressed frames sent to uncompressed backend connections"),
+ "C15-3": ("C15", "a plan alive across: remove the last host, remove the new last host, re-add the former last host", "handed-out plan yields a host twice (tail removals reslice, adds append in place)"),
+ "C15-4": ("C15", "a host joins and the refresh announcing it fails (control node misreports its own address), then the reconnect", "Add events sent before the error return and again after the reconnect: host twice in every plan, plus a phantom host"),
+ "C19-3": ("C19", "a genuine handshake first, then a forged certificate copying the genuine one's issuer DN and serial number", "'already verified' cache keyed by unverified fields: forgery accepted, CQL bytes sent"),
+ "C20-3": ("C20", "tokens for this proxy, its own entry (with tokens) in the shared peers list, and a remote peer without tokens", "own entry counted as a peer with tokens: configuration accepted"),
 }
 B2.update(B3)
 
 rows = collections.defaultdict(dict)
-if os.path.exists(matrix):
+for matrix in matrices:
+    if not os.path.exists(matrix):
+        continue
     for line in open(matrix):
         parts = line.rstrip("\n").split(" ", 3)
         if len(parts) >= 3 and parts[2].startswith("rc="):
@@ -87,3 +104,40 @@ for sid in sorted(os.listdir(os.path.join(V, "seeded"))):
     json.dump(meta, open(mp, "w"), indent=1)
     open(mp, "a").write("\n")
     print(sid, "->", ",".join(meta.get("caught_by_quick", {}).keys()) or "?")
+
+# ---- seeded/MATRIX.md and the compact table in DESIGN.md
+def short(sig):
+    first = sig.split(";")[0]
+    return first if len(first) <= 110 else first[:107] + "..."
+
+lines_full = ["# Seeded changes x checks (quick tier, seed 1)", "",
+              "Generated by bin/mkseedmeta.py from the output of bin/seedmatrix. `own` = the check of the property the change breaks.", "",
+              "| change | breaks | caught by own check (first signature) | also caught by | other exit codes |", "|---|---|---|---|---|"]
+lines_short = ["| change | own check | also caught by |", "|---|---|---|"]
+missed = []
+for sid in sorted(os.listdir(os.path.join(V, "seeded"))):
+    mp = os.path.join(V, "seeded", sid, "meta.json")
+    if not os.path.exists(mp):
+        continue
+    meta = json.load(open(mp))
+    own = meta["breaks_property"]
+    caught = meta.get("caught_by_quick")
+    if caught is None:
+        lines_full.append("| %s | %s | (not in the matrix) | | |" % (sid, own))
+        lines_short.append("| %s | (not in the matrix) | |" % sid)
+        continue
+    others = [c for c in caught if c != own]
+    broken = meta.get("inconclusive_or_broken_under_this_change", {})
+    own_txt = "`%s`" % short(caught[own]) if own in caught else "**MISSED**"
+    if own not in caught:
+        missed.append(sid)
+    lines_full.append("| %s | %s | %s | %s | %s |" % (sid, own, own_txt, ", ".join(others), ", ".join("%s rc=%s" % kv for kv in broken.items())))
+    lines_short.append("| %s | %s | %s |" % (sid, "yes" if own in caught else "**MISSED**", ", ".join(others)))
+open(os.path.join(V, "seeded", "MATRIX.md"), "w").write("\n".join(lines_full) + "\n")
+dp = os.path.join(V, "DESIGN.md")
+d = open(dp).read()
+b, e = d.find("<!-- MATRIX-BEGIN -->"), d.find("<!-- MATRIX-END -->")
+if b >= 0 and e > b:
+    d = d[:b] + "<!-- MATRIX-BEGIN -->\n" + "\n".join(lines_short) + "\n" + d[e:]
+    open(dp, "w").write(d)
+print("missed by own check:", missed or "none")
